@@ -78,6 +78,18 @@ pub(crate) fn remove_all<Fd: AsFd>(dirfd: Fd, name: &Path) -> Result<(), Error> 
         })?;
     }
 
+    // "." and ".." (and the empty name) do not name an entry of dirfd -- they
+    // refer to dirfd itself or to its parent. unlinkat(2) and rmdir(2) refuse
+    // them, but the O_DIRECTORY open below would happily walk into them and
+    // we would end up deleting the children of a directory the caller never
+    // named (for ".." that is the parent of dirfd).
+    if matches!(name.as_os_str().as_bytes(), b"" | b"." | b"..") {
+        Err(ErrorImpl::InvalidArgument {
+            name: "path".into(),
+            description: "cannot remove_all '.' or '..'".into(),
+        })?;
+    }
+
     // Fast path -- try to remove it with unlink/rmdir.
     if remove_inode(dirfd, name).ignore_enoent().is_ok() {
         return Ok(());
